@@ -15,7 +15,7 @@ pub const RULE: &str = "case = (alphabet, count data from random sequence sets o
 
 pub const REQUIRED: &[&str] = &[
     "alphabet.dna", "alphabet.protein", "source.from_sequences", "source.raw_counts", "pseudo.scalar", "pseudo.zero",
-    "pseudo.per_symbol", "bg.uniform", "bg.dyadic", "bg.zero_entries", "bg.tiny_positive_entry", "bg.from_counts", "bg.from_sequence",
+    "pseudo.per_symbol", "pseudo.filled_in_place", "bg.uniform", "bg.dyadic", "bg.zero_entries", "bg.tiny_positive_entry", "bg.from_counts", "bg.from_sequence",
     "base.2", "base.10", "base.e", "base.3.7", "route.one_step", "route.two_step", "route.rescale", "route.from_impls", "route.default_background", "class.wildcard_frequency_under_default_background",
     "invalid.unequal_lengths", "invalid.unequal_lengths.empty_member", "invalid.unequal_lengths.leading_empty", "invalid.freq_row_sum", "invalid.freq_not_a_number", "route.transfac_record", "invalid.bg_out_of_range", "invalid.bg_negative_sum_one", "invalid.bg_sum", "invalid.bg_nan",
     "windows.bracketed", "class.neg_inf_score",
@@ -250,6 +250,35 @@ fn run_case<A: Alphabet>(case: u64, rng: &mut Rng, rep: &mut Report, alpha: &str
         if (sum - 1.0).abs() > 1e-4 {
             fail(rep, "c09.frequency", format!("frequency row {} sums to {}", i, sum), &notes, J::Null);
             return;
+        }
+    }
+
+    // the same pseudocounts written in place into an object that was created all-zero
+    // (Pseudocounts::default() / from(0.0), then as_mut()): what counts is what it holds now
+    {
+        let mut pc = if rng.chance(0.5) { Pseudocounts::<A>::default() } else { Pseudocounts::<A>::from(0.0f32) };
+        {
+            let slot: &mut [f32] = pc.as_mut();
+            for (j, x) in slot.iter_mut().enumerate() {
+                *x = pseudo[j];
+            }
+        }
+        rep.cover("pseudo.filled_in_place");
+        match guard(|| cm.to_freq(pc)) {
+            Err(p) => {
+                fail(rep, &format!("c09.panic:{}", panic_site(&p)), format!("panic in to_freq (pseudocounts filled in place): {}", p), &notes, J::Null);
+                return;
+            }
+            Ok(f2) => {
+                for i in 0..w {
+                    for j in 0..k {
+                        if !rel_close(f2.matrix()[i][j] as f64, f_ref[i][j], 1e-5) {
+                            fail(rep, "c09.frequency", format!("to_freq with pseudocounts written through as_mut(): frequency[{}][{}] = {}, (count+pseudo)/total = {}", i, j, f2.matrix()[i][j], f_ref[i][j]), &notes, J::Null);
+                            return;
+                        }
+                    }
+                }
+            }
         }
     }
 
